@@ -57,6 +57,7 @@ type rnsState struct {
 	Blocked   []string `json:"blocked"`
 	ModuleAcc string   `json:"moduleAcc"`
 	PolAcc    string   `json:"polAcc"`
+	Canon     []Pair   `json:"canon"`
 }
 
 // parseCoin / parseCoins: the chain's own parsers, as oracle inputs for the model.
@@ -117,8 +118,40 @@ func (c *Chain) rnsAbs(tracked []string) rnsState {
 	st.ModuleAcc = c.ModuleAddr(rnstypes.ModuleName)
 	pol, _ := alltypes.GetPOLAccount()
 	st.PolAcc = pol.String()
+	// every address-like string in play, with the chain's own canonicalisation
+	cands := map[string]bool{st.ModuleAcc: true, st.PolAcc: true}
+	for _, t := range tracked {
+		cands[t] = true
+		cands[strings.ToUpper(t)] = true
+	}
+	for _, p := range st.Names {
+		cands[p[1].(rnsName).Value] = true
+	}
+	for _, p := range st.Forsale {
+		cands[p[1].(rnsListing).Owner] = true
+	}
+	for _, p := range st.Bids {
+		cands[p[1].(rnsBid).Bidder] = true
+	}
+	for _, x := range extraAddrs {
+		cands[x] = true
+	}
+	keys := []string{}
+	for k := range cands {
+		keys = append(keys, k)
+	}
+	sort.Strings(keys)
+	st.Canon = []Pair{}
+	for _, k := range keys {
+		if a, err := sdk.AccAddressFromBech32(k); err == nil {
+			st.Canon = append(st.Canon, Pair{k, a.String()})
+		}
+	}
 	return st
 }
+
+// address strings of the op under construction (receivers, bidders) to be canonicalised too
+var extraAddrs []string
 
 var rnsNamePool = []string{
 	"ab.jkl", "abxjkl", "hello.jkl", "Hello.JKL", "q.ibc", "longname.ibc", "sub.hello.jkl", "a b.jkl",
@@ -167,6 +200,14 @@ func (g *rnsGen) actorFor(lname string) string {
 	return g.actors[g.r.Intn(len(g.actors))]
 }
 
+// spell: sometimes the all-upper-case bech32 spelling of the same account
+func (g *rnsGen) spell(a string) string {
+	if g.r.Intn(9) == 0 {
+		return strings.ToUpper(a)
+	}
+	return a
+}
+
 func (g *rnsGen) pickName() string {
 	// bias towards names that exist
 	if g.r.Intn(100) < 50 {
@@ -179,6 +220,8 @@ func (g *rnsGen) pickName() string {
 			}
 			if g.r.Intn(10) == 0 {
 				s = strings.ToUpper(s)
+			} else if g.r.Intn(6) == 0 && len(s) > 4 { // capitals in the name part only: passes ValidateBasic
+				s = strings.ToUpper(s[:1]) + s[1:]
 			}
 			return s
 		}
@@ -332,6 +375,7 @@ func runRns(seed int64, histories, steps int, out *Emitter) {
 				}
 			}
 			msg, op := g.next()
+			respell(g, msg, op)
 			pre := c.rnsAbs(g.tracked)
 			res := c.Deliver(msg)
 			post := c.rnsAbs(g.tracked)
@@ -342,5 +386,56 @@ func runRns(seed int64, histories, steps int, out *Emitter) {
 			genesisRoundTrip(c, hi, "rns", out)
 		}
 		c.Close()
+	}
+}
+
+// respell rewrites the signer (and for AcceptBid the bidder) of a generated message to another
+// valid spelling of the same account, in the message and in the op record alike
+func respell(g *rnsGen, msg sdk.Msg, op map[string]interface{}) {
+	extraAddrs = nil
+	for _, v := range op {
+		m := v.(map[string]interface{})
+		c := m["creator"].(string)
+		nc := g.spell(c)
+		m["creator"] = nc
+		switch x := msg.(type) {
+		case *rnstypes.MsgRegister:
+			x.Creator = nc
+		case *rnstypes.MsgRegisterName:
+			x.Creator = nc
+		case *rnstypes.MsgList:
+			x.Creator = nc
+		case *rnstypes.MsgDelist:
+			x.Creator = nc
+		case *rnstypes.MsgBuy:
+			x.Creator = nc
+		case *rnstypes.MsgBid:
+			x.Creator = nc
+		case *rnstypes.MsgCancelBid:
+			x.Creator = nc
+		case *rnstypes.MsgAcceptBid:
+			x.Creator = nc
+			nb := g.spell(x.From)
+			x.From = nb
+			m["bidder"] = nb
+			extraAddrs = append(extraAddrs, nb)
+		case *rnstypes.MsgTransfer:
+			x.Creator = nc
+			nr := g.spell(x.Receiver)
+			x.Receiver = nr
+			m["receiver"] = nr
+			extraAddrs = append(extraAddrs, nr)
+		case *rnstypes.MsgUpdate:
+			x.Creator = nc
+		case *rnstypes.MsgAddRecord:
+			x.Creator = nc
+		case *rnstypes.MsgDelRecord:
+			x.Creator = nc
+		case *rnstypes.MsgInit:
+			x.Creator = nc
+		case *rnstypes.MsgMakePrimary:
+			x.Creator = nc
+		}
+		extraAddrs = append(extraAddrs, nc)
 	}
 }
